@@ -1,5 +1,5 @@
-INIT MInit
-NEXT MNext
+INIT TInit
+NEXT TNext
 CONSTRAINT Track
 POSTCONDITION TraceAccepted
 CHECK_DEADLOCK FALSE
